@@ -10,6 +10,7 @@
   format-print and slice-write are stated (`*_statement`) but not proved; see the comments there.
 -/
 import MptModel.Lemmas.HeapHist
+import MptModel.Lemmas.HeapXX
 namespace Mpt.C04
 open Mpt Mpt.Heap
 
@@ -156,5 +157,69 @@ def slice_write_statement : Prop :=
     | .ok s' k => Inv s' ∧ k ≤ nblk ∧ (∀ h', h' ≠ h → s'.abs h' = s.abs h') ∧
         ∃ w', s'.win h = some w' ∧
           Vec.sub (s'.abs h) w'.off w'.len = Vec.sub (s.abs h) w.off w.len ++ Vec.blocks bytes k esz
+
+/-! ### C++ layer (mpt++/array.cpp, templates of mptcore/array.h; model `Impl/HeapXX.lean`) -/
+
+/-- operations of `mpt::array` covered by a theorem -/
+inductive XOp where
+  | set (h : Nat) (bytes : List Byte)                 -- array::set(len, data)
+  | insert (h off : Nat) (bytes : List Byte)          -- array::insert(off, len, data)
+  | append (h : Nat) (bytes : List Byte)              -- array::append(len, data)
+  | assign (dst src : Nat)                            -- operator= / copy construction
+  | drop (h : Nat)                                    -- destruction
+
+def XOp.handle : XOp → Nat
+  | .set h _ | .insert h _ _ | .append h _ | .assign h _ | .drop h => h
+
+def xexec (s : State) : XOp → Out Unit
+  | .set h bytes => Out.mapv (fun _ => ()) (arraySetX s h bytes)
+  | .insert h off bytes => Out.mapv (fun _ => ()) (arrayInsertX s h off bytes)
+  | .append h bytes => Out.mapv (fun _ => ()) (arrayAppendX s h bytes)
+  | .assign d src => refAssign s d src
+  | .drop h => refDrop s h
+
+def xspecRel (s : State) : XOp → Vec.Vec → Vec.Vec → Prop
+  | .set _ bytes, _, v' => v' = bytes
+  | .insert _ off bytes, v, v' => v' = Vec.insert v off bytes
+  | .append _ bytes, v, v' => v' = Vec.append v bytes
+  | .assign _ src, _, v' => v' = s.abs src
+  | .drop _, _, v' => v' = []
+
+/-- value semantics of the C++ array wrapper: `set`, `insert`, `append`, assignment/copy and destruction
+    through one handle never change what another handle reads — whatever is shared —, the handle itself reads
+    what the vector spec says, refusals change nothing, the invariant is kept and nothing faults -/
+theorem cxx_value_semantics {s : State} (hinv : Inv s) (op : XOp) (hlt : op.handle < s.hs.length) :
+    Sem s op.handle (xspecRel s op) (xexec s op) := by
+  cases op with
+  | set h bytes => exact (arraySetX_sem hinv hlt bytes).mapv _
+  | insert h off bytes => exact (arrayInsertX_sem hinv hlt off bytes).mapv _
+  | append h bytes => exact (arrayAppendX_sem hinv hlt bytes).mapv _
+  | assign d src => exact refAssign_sem hinv hlt src
+  | drop h => exact refDrop_sem hinv hlt
+
+/-- instance: `b = a; b.set("X")` on shared data with a shorter value — `b` reads `X`, `a` the old bytes
+    (the input on which a seeded in-place `set` was caught) -/
+example :
+    (match arraySetX { hs := [none, none], wins := [none, none] } 0 [0x61, 0x62, 0x63] with
+     | .ok s1 _ => (match refAssign s1 1 0 with
+       | .ok s2 _ => (match arraySetX s2 1 [0x58] with
+         | .ok s3 _ => (s3.abs 0, s3.abs 1)
+         | _ => ([], []))
+       | _ => ([], []))
+     | _ => ([], [])) = ([0x61, 0x62, 0x63], [0x58]) := by decide
+
+/-- typed wrappers (`unique_array<T>` / `typed_array<T>` with plain element types): stated, not proved; checked
+    against the real templates by the C++ part of the correspondence (kinds t1 t12 u1 u12).  `k.t` is the
+    element type of every buffer of the handle. -/
+def cxx_typed_statement : Prop :=
+  ∀ (s : State) (h : Nat) (k : XKind) (pos : Int) (val : List Byte) (n : Nat), Inv s → h < s.hs.length →
+    PlainT (some k.t) → val.length = k.t.size →
+    (∀ b x, s.handle h = some b → s.buf? b = some x → x.traits = some k.t) →
+    Sem s h (fun v v' => ∃ p need, insertPos (v.length / k.t.size) pos = some (p, need) ∧
+        v' = Vec.insert v (p * k.t.size) val) (uInsert s h k pos (some val) none) ∧
+    Sem s h (fun v v' => v' = if n * k.t.size ≤ v.length then v.take (n * k.t.size) else Vec.padTo v (n * k.t.size))
+      (uResize s h k n) ∧
+    Sem s h (fun v v' => v' = v) (uReserve s h k n) ∧
+    Sem s h (fun v v' => v' = v) (uDetach s h k)
 
 end Mpt.C04
